@@ -153,7 +153,7 @@ class Contract:
                  loops=None, modifies=(), ghosts=None, inline=False, trusted=False,
                  covers=(), native=None, result=None, note='', exact_raises=True,
                  dropped=(), opaque=None, floor=1, name=None, pure_result=False,
-                 assumes=(), variant='', uses=(), abstract_classes=None, reveal=(), cases=None, yields=None, then_call=None, pure_expr=None, shards=1, returns=None, opaque_attrs=None, opaque_fns=None, pure_ignores_raises=False, effects=None, method_effects=None, on_raise=(), region=None, opaque_classes=()):
+                 assumes=(), variant='', uses=(), abstract_classes=None, reveal=(), cases=None, yields=None, then_call=None, pure_expr=None, shards=1, returns=None, opaque_attrs=None, opaque_fns=None, pure_ignores_raises=False, effects=None, method_effects=None, on_raise=(), region=None, opaque_classes=(), native_classes=()):
         self.prop = prop
         self.file = file
         self.qual = qual
@@ -185,6 +185,7 @@ class Contract:
         self.effects = effects or {}            # global functions that are effects: name -> [exception names they may raise]; recorded in __trace__
         self.method_effects = method_effects or {}   # methods of objects that are effects: name -> [exception names] (recorded in __trace__)
         self.on_raise = list(on_raise)          # exceptional postconditions: hold whenever an exception escapes (names: __trace__, __exc__)
+        self.native_classes = list(native_classes)   # immutable value classes of the repo that may be constructed natively from concrete arguments
         self.opaque_classes = list(opaque_classes)   # names of external classes whose instances are opaque objects here (pathlib.Path ...)
         self.region = region                    # (statement type name, text it must contain): verify only that statement of the function, the params being its live-in variables
         self.returns = returns              # name of the parameter object the function returns (aliasing: `return self`)
